@@ -96,7 +96,9 @@ func runInBubble(p *Plan, mk func() []Monitor, res *Result) {
 		}
 	}
 	for _, n := range w.Nodes {
-		n.Start()
+		if n.ID < 2 {
+			n.Start()
+		}
 	}
 	bp := time.Duration(scn.BlockEverySec) * time.Second
 	w.BTC.StartMiner(bp)
@@ -113,9 +115,11 @@ func runInBubble(p *Plan, mk func() []Monitor, res *Result) {
 		ev := p.Chain[i]
 		w.Sim.After(ms(ev.AtMs), "chain", fmt.Sprintf("chainev#%d %s %s", i, ev.Chain, ev.Kind), func() { w.doChainEv(&ev) })
 	}
-	if w.Adv != nil {
-		w.Adv.start()
+	if w.Adv == nil {
+		w.Adv = newAdversary(w, 2)
 	}
+	w.scheduleInjections()
+	w.Adv.start()
 	dur := time.Duration(scn.DurationSec) * time.Second
 	if dur == 0 {
 		dur = 15 * time.Minute
